@@ -23,6 +23,8 @@ pub enum AxisClass {
     FullMantissa,
     /// groups of knots only 1..3 ulps apart
     Clustered,
+    /// runs of exactly equal intervals with different widths (concatenated uniform grids)
+    PiecewiseUniform,
 }
 
 impl AxisClass {
@@ -35,17 +37,19 @@ impl AxisClass {
             AxisClass::DyadicRandom => "dyadic-random",
             AxisClass::FullMantissa => "full-mantissa",
             AxisClass::Clustered => "clustered-ulps",
+            AxisClass::PiecewiseUniform => "piecewise-uniform",
         }
     }
-    pub const SMOOTH: [AxisClass; 6] = [
+    pub const SMOOTH: [AxisClass; 7] = [
         AxisClass::Unit,
         AxisClass::UniformDyadic,
         AxisClass::UniformInexact,
         AxisClass::Geometric,
         AxisClass::DyadicRandom,
         AxisClass::FullMantissa,
+        AxisClass::PiecewiseUniform,
     ];
-    pub const ALL: [AxisClass; 7] = [
+    pub const ALL: [AxisClass; 8] = [
         AxisClass::Unit,
         AxisClass::UniformDyadic,
         AxisClass::UniformInexact,
@@ -53,6 +57,7 @@ impl AxisClass {
         AxisClass::DyadicRandom,
         AxisClass::FullMantissa,
         AxisClass::Clustered,
+        AxisClass::PiecewiseUniform,
     ];
 }
 
@@ -201,6 +206,24 @@ pub fn gen_axis<T: Flt>(rng: &mut Rng, n: usize, class: AxisClass, opts: &AxisOp
                     1.0 + u * (ratio.min(4.0) - 1.0)
                 };
                 x += base * g.min(ratio);
+            }
+            out
+        }
+        AxisClass::PiecewiseUniform => {
+            // integer multiples of a dyadic unit: runs of equal gaps, widths 1..8 units
+            let unit = f64::pow2(rng.irange(-4, 3) as i32);
+            let mut pos = rng.irange(-100, 100);
+            let mut out = Vec::with_capacity(n);
+            let mut gap = 1 + rng.below(8) as i64;
+            let mut run = 1 + rng.below(4);
+            for _ in 0..n {
+                out.push(T::of(pos as f64 * unit * s));
+                if run == 0 {
+                    gap = 1 + rng.below(8) as i64;
+                    run = 1 + rng.below(4);
+                }
+                run -= 1;
+                pos += gap;
             }
             out
         }
